@@ -130,9 +130,9 @@ func init() {
 		rp.RunJobs(c13Scenarios(rp.Tier), budget/2, func(f *wx.Failure, _ string) bool { return f.Prop == "C13" || f.Prop == "" })
 		// (2) cross-process: the same exploration in two processes with different GC regimes and scheduling.
 		type pairRes struct {
-			id     string
-			depth  int
-			a, b   childOut
+			id    string
+			depth int
+			a, b  childOut
 		}
 		jobs := c13Scenarios(rp.Tier)
 		results := make([]pairRes, len(jobs))
